@@ -170,3 +170,13 @@ package server
 //@     needs before s.authorizeRequest(_, $op, _, _, _, _) -> ($stop)
 //@     where !$stop && ($o != nil && $o.VersionID != nil ==> $op == authorization.OperationGetObjectVersion) &&
 //@         ($o == nil || $o.VersionID == nil ==> $op == authorization.OperationGetObject)
+
+// C11. CopyObject: the directives of the request decide, by themselves, whether metadata and tags are replaced - REPLACE
+// with an empty or absent tag set replaces the tags by nothing, it does not fall back to COPY - and the values handed to
+// the storage are the ones parsed from this request.
+//@ func (*Server).copyObjectHandler
+//@ mode effects
+//@ effect[C11:copy-directives-decide-what-is-replaced] every s.storage.CopyObject(_, $sb, $sk, $db, $dk, $o)
+//@     where $o != nil && $o.ReplaceTags == (taggingDirective == taggingDirectiveReplace) &&
+//@         $o.ReplaceMetadata == (metadataDirective == metadataDirectiveReplace) && $o.Metadata == metadata && $o.StorageClass == storageClass &&
+//@         same($o.Tags, replaceTags) && $sb == srcBucketName && $sk == srcKey && $db == dstBucketName && $dk == dstKey
